@@ -28,6 +28,7 @@ type Verifier struct {
 	declText    string
 	qaxioms     []*qaxiom
 	wantModel   bool
+	seed        int
 }
 
 func newVerifier(tier string) (*Verifier, error) {
@@ -98,6 +99,7 @@ func newVerifier(tier string) (*Verifier, error) {
 	for _, k := range sortedFuncKeys(P.Funcs) {
 		V.U.fnCtorOf(P.Funcs[k])
 	}
+	V.U.preRegister()
 	wd, err := os.MkdirTemp("", "bxv-")
 	if err != nil {
 		return nil, err
@@ -131,6 +133,17 @@ func (V *Verifier) encodeFuncs(keys []string) []*Oblig {
 		}
 		V.encs[k] = e
 		obls = append(obls, e.obls...)
+		if c := V.CS.ByKey[k]; c != nil && c.HasAssigns {
+			for _, ff := range V.frameCheck(f) {
+				o := &Oblig{Name: fmt.Sprintf("%s#frame:%s", k, ff.name), Fn: k, Kind: "frame", Note: ff.note, Pos: ff.pos.Pos(), Decided: true}
+				if ff.ok {
+					o.Res = SolveResult{Verdict: Unsat, Solver: "bxv-frame-walk"}
+				} else {
+					o.Res = SolveResult{Verdict: Sat, Solver: "bxv-frame-walk", Output: ff.note + " at " + ff.pos.String()}
+				}
+				obls = append(obls, o)
+			}
+		}
 	}
 	return obls
 }
@@ -185,6 +198,15 @@ func (V *Verifier) queryText(o *Oblig) string {
 		b.WriteString(V.relevantAxioms(inst + body.String()))
 		b.WriteString(inst)
 		b.WriteString(body.String())
+	} else if o.Kind == "lemma" {
+		for _, d := range o.lemmaDecls {
+			b.WriteString(d)
+			b.WriteString("\n")
+		}
+		inst := V.instantiateUnfolds(o.lemmaBody, o.lemmaFuel)
+		b.WriteString(V.relevantAxioms(inst + o.lemmaBody))
+		b.WriteString(inst)
+		b.WriteString(o.lemmaBody)
 	} else {
 		b.WriteString(o.Text)
 	}
@@ -277,6 +299,9 @@ func (V *Verifier) discharge(obls []*Oblig) {
 	var wg sync.WaitGroup
 	for _, o := range obls {
 		o := o
+		if o.Decided {
+			continue
+		}
 		wg.Add(1)
 		sem <- struct{}{}
 		go func() {
@@ -305,12 +330,23 @@ type qaxiom struct {
 func newQAxiom(c *SX) *qaxiom {
 	q := &qaxiom{text: c.String()}
 	body := c.List[1].List[2]
+	bound := map[string]bool{}
+	for _, bv := range c.List[1].List[1].List {
+		bound[bv.List[0].Atom] = true
+	}
 	if body.Head() == "!" {
 		for i := 2; i+1 < len(body.List); i += 2 {
 			if body.List[i].Atom == ":pattern" {
+				// a multi-pattern: all its terms must be matched
+				var need []string
 				for _, p := range body.List[i+1].List {
-					q.pats = append(q.pats, []string{headSyms(p)})
+					for _, s := range allSyms(p) {
+						if !bound[s] && !isNumeral(s) {
+							need = append(need, s)
+						}
+					}
 				}
+				q.pats = append(q.pats, need)
 			}
 		}
 	}
@@ -321,7 +357,14 @@ func newQAxiom(c *SX) *qaxiom {
 	return q
 }
 
-func headSyms(p *SX) string { return p.Head() }
+func isNumeral(s string) bool {
+	for _, r := range s {
+		if r < '0' || r > '9' {
+			return false
+		}
+	}
+	return s != ""
+}
 
 func allSyms(c *SX) []string {
 	var out []string
